@@ -58,3 +58,21 @@ def replay(target, hists, nl=3):
                 "kinds": kinds, "sample": [x for x in lines if x.get("b") == 1][:25]}
     finally:
         shutil.rmtree(d, ignore_errors=True)
+
+
+def storm(rounds):
+    """free-running rounds (fires concurrent with unsubscribes) on the real Event, judged at quiescence"""
+    binp = vlib.go_build("eventdrv")
+    d = vlib.scratch("storm-")
+    try:
+        json.dump({"listeners": 24, "behaviours": [[] for _ in range(rounds)]}, open(os.path.join(d, "in.json"), "w"))
+        rc, out, err, _ = vlib.run_driver(binp, ["-in", "in.json", "-out", "trace.ndjson", "-target", "storm"], cwd=d, timeout=900)
+        if rc != 0:
+            raise vlib.Inconclusive("eventdrv storm failed: %s" % err[-1500:])
+        lines = [json.loads(x) for x in open(os.path.join(d, "trace.ndjson"))]
+        tr = vlib.cfg_text(dict(TraceFile="trace.ndjson"), spec="TraceSpec", postcondition="Report")
+        r = vlib.tlc_validate("EventStormTrace", tr, os.path.join(d, "trace.ndjson"))
+        problems = [{"cats": b["cats"], "line": b["line"], "event": lines[b["line"] - 1]} for b in r["allbad"]]
+        return {"rounds": len(lines), "consumed": r["consumed"], "problems": problems, "sample": lines[:1]}
+    finally:
+        shutil.rmtree(d, ignore_errors=True)
